@@ -21,13 +21,14 @@ func init() {
 }
 
 type c19case struct {
-	Spokfile  string   `json:"spokfile"`  // text; "" with NoSpokfile
-	Variant   string   `json:"variant"`   // valid | token-removed | duplicate-task | failing-exec | unknown-builtin | none | directory
-	Files     []string `json:"files"`     // other project files
-	Args      []string `json:"args"`      // command line
-	Nested    bool     `json:"nested"`    // cwd = proj/nested/dir
-	GitIgnore bool     `json:"gitignore"` // a .gitignore exists in cwd
-	InitHere  string   `json:"init_here"` // for --init from a nested dir: "" | "file" | "dir" (a spokfile already exists in cwd)
+	Spokfile   string   `json:"spokfile"`           // text; "" with NoSpokfile
+	Variant    string   `json:"variant"`            // valid | token-removed | duplicate-task | failing-exec | unknown-builtin | none | directory
+	Files      []string `json:"files"`              // other project files
+	Args       []string `json:"args"`               // command line
+	Nested     bool     `json:"nested"`             // cwd = proj/nested/dir
+	GitIgnore  bool     `json:"gitignore"`          // a .gitignore exists in cwd
+	InitHere   string   `json:"init_here"`          // for --init from a nested dir: "" | "file" | "dir" (a spokfile already exists in cwd)
+	SpokIsFile bool     `json:"dot_spok_is_a_file"` // a regular file named .spok sits where the cache directory would go
 }
 
 func (k c19case) key() string { b, _ := json.Marshal(k); return string(b) }
@@ -149,6 +150,7 @@ func c19Gen(r *core.Rng) c19case {
 	}
 	k.Nested = r.Chance(35)
 	k.GitIgnore = r.Chance(50)
+	k.SpokIsFile = r.Chance(8)
 	var tasks []string
 	for _, st := range p.Stmts {
 		if st.Kind == "task" {
@@ -235,6 +237,10 @@ func c19Judge(c *core.Ctx, k c19case, res *core.ShardResult) (vs []core.Violatio
 	cwd := proj
 	if k.Nested {
 		cwd = filepath.Join(proj, "nested", "dir")
+	}
+	if k.SpokIsFile {
+		// the cache directory cannot be created: spok may fail, but must not go and write elsewhere
+		_ = os.WriteFile(filepath.Join(proj, ".spok"), []byte("not a directory\n"), 0o644)
 	}
 	gitIgnoreOld := ""
 	if k.GitIgnore {
